@@ -7,6 +7,7 @@ import (
 	"fmt"
 	"go/types"
 	"math/big"
+	"os"
 	"sort"
 	"strings"
 
@@ -436,6 +437,13 @@ func (m *machine) concretize(t *Term, why string) *big.Int {
 		ex = append(ex, m.ts.Not(m.ts.Eq(t, m.ts.IntBig(e))))
 	}
 	// ask for a value
+	if os.Getenv("GSE_DEBUG_CONC") != "" {
+		st := ""
+		for i := len(m.stack) - 1; i >= 0 && i >= len(m.stack)-6; i-- {
+			st += " <- " + m.stack[i].String()
+		}
+		fmt.Fprintf(os.Stderr, "CONC %s term=%s%s\n", why, t.String(), st)
+	}
 	m.flushPC()
 	r, model := m.sol.Check(m.ts, ex, true, []*Term{t})
 	if r == Unsat {
